@@ -99,6 +99,13 @@ func seedPayloads() []*V {
 	add(tmapv([]PTag{{Ptr: "/k2", Class: "public"}, {Ptr: "/k1/k1", Class: "public"}, {Ptr: "/k1/k2", Class: "sensitive", Op: "hmac-sha256"}, {Ptr: "/k1/k9", Class: "secret"}},
 		"k1", imap("k1", str(1), "k2", str(2), "k3", str(3)), "k2", str(4), "k3", str(5)))
 	add(ptr(st(fld("F1", nil, tmapv([]PTag{{Ptr: "/k1/k1", Class: "public"}}, "k1", imap("k1", str(1), "k2", st(fld("F1", sens, str(2)))), "k2", str(3))))))
+	// []byte values under tagged keys: the bytes (not a rendering of the slice) are encrypted / HMAC-ed
+	add(tmapv([]PTag{{Ptr: "/k1", Class: "sensitive", Op: "hmac-sha256"}, {Ptr: "/k2", Class: "sensitive"}, {Ptr: "/k3", Class: "secret"}, {Ptr: "/k4", Class: "public"}},
+		"k1", &V{K: "bytes", C: 1}, "k2", &V{K: "bytes", C: 2}, "k3", &V{K: "bytes", C: 3}, "k4", &V{K: "bytes", C: 4}, "k5", &V{K: "bytes", C: 5}))
+	// pointers three levels deep
+	add(tmapv([]PTag{{Ptr: "/k1/k2/k1", Class: "public"}}, "k1", imap("k2", imap("k1", str(1), "k2", str(2)))))
+	add(tmapv([]PTag{{Ptr: "/k1/k2/k1", Class: "public"}, {Ptr: "/k1/k2/k2", Class: "sensitive", Op: "hmac-sha256"}, {Ptr: "/k3/k1", Class: "public"}, {Ptr: "/k1/k1/k1", Class: "secret"}},
+		"k1", imap("k1", str(1), "k2", imap("k1", str(2), "k2", str(3), "k3", str(4))), "k2", str(5), "k3", imap("k1", str(6), "k2", str(7))))
 	add(tmapv([]PTag{{Ptr: "k1", Class: "secret"}}, "k1", str(1)))
 	add(tmapv([]PTag{{Ptr: "/k1", Class: "bogus"}}, "k1", str(1)))
 	add(tmapv([]PTag{{Ptr: "/k1", Class: "bogus"}}, "k2", str(1)))
@@ -118,6 +125,16 @@ func seedPayloads() []*V {
 	add(ptr(st(fld("F1", nil, tsA(1, tagsA)), fld("F2", nil, sliceOf(ptr(st(fld("F1", nil, tsA(20, tagsA)))))))))
 	add(ptr(&V{K: "hand", Hand: "TStructB", Tags: []PTag{{Ptr: "/M/k1", Class: "public"}}, Fields: []Field{fld("Sec", sec, str(1)), fld("M", nil, imap("k1", str(2), "k2", str(3))),
 		fld("T", nil, tmapv(pubTag, "k1", str(4), "k2", str(5))), fld("L", nil, sliceOf(tmapv(pubTag, "k1", str(6), "k2", str(7))))}}))
+	// Taggable struct payload -> map field -> struct value -> Taggable map with public / sensitive entries
+	deepT := func(c int) *V {
+		return tmapv([]PTag{{Ptr: "/k1", Class: "public"}, {Ptr: "/k2", Class: "sensitive"}}, "k1", str(c), "k2", str(c+1), "k3", str(c+2))
+	}
+	for _, val := range []*V{st(fld("F1", nil, deepT(30))), ptr(st(fld("F1", nil, deepT(40))))} {
+		x := tsA(1, tagsA)
+		x.Fields[3].V = imap("k1", str(4), "k2", val)
+		add(ptr(x))
+	}
+	add(ptr(st(fld("F1", nil, imap("k1", deepT(50))))))
 	// unexported fields (F10)
 	add(ptr(&V{K: "hand", Hand: "UnexpA", Fields: []Field{fld("hidden", nil, &V{K: "int", I: 7}), fld("hiddenS", nil, str(1)), fld("N", nil, &V{K: "int", I: 5}), fld("Sec", sec, str(2)), fld("Pub", pub, str(3))}}))
 	return out
